@@ -99,6 +99,9 @@ type GenOpts struct {
 	// entry (or its child) also the source of a rename.
 	ForceKindSwap int
 	ForceRename   bool
+	// WrapEdit adds a file larger than the differ's 4 MiB + 2 block buffer whose only edits sit
+	// exactly where that buffer wraps (block 66) - unchanged before, unchanged after.
+	WrapEdit bool
 }
 
 var dirPool = []string{"", "", "a/", "a/b/", "c/", "c/d/e/", "data/", "bin/"}
@@ -281,6 +284,26 @@ func GenPair(seed uint64, o GenOpts) *Pair {
 		p.feat(sizeClass(int64(len(data))))
 	}
 
+	if o.WrapEdit {
+		n := int64(r.Range(70, 100))*BS + int64(r.Intn(BS))
+		d := RandomBytes(n, r.Uint64())
+		nd := append([]byte(nil), d...)
+		wrap := int64(66 * BS)
+		switch r.Intn(4) {
+		case 0: // the whole block right after the wrap point
+			FillRandom(nd[wrap:wrap+BS], r.Uint64())
+		case 1: // a few bytes at the start of it
+			FillRandom(nd[wrap:wrap+int64(r.Range(1, 300))], r.Uint64())
+		case 2: // the last bytes before the wrap point
+			FillRandom(nd[wrap-int64(r.Range(1, 300)):wrap], r.Uint64())
+		default: // an insertion right at the wrap point (everything after it shifts)
+			ins := RandomBytes(int64(r.Range(1, 5000)), r.Uint64())
+			nd = append(nd[:wrap:wrap], append(ins, nd[wrap:]...)...)
+		}
+		p.Old.PutFile("wrap/big.bin", d)
+		p.New.PutFile("wrap/big.bin", nd)
+		p.feat("edit-at-differ-buffer-wrap")
+	}
 	// derive new from old
 	used := map[int]bool{}
 	relW := []string{"unchanged", "unchanged", "renamed", "dup", "edit", "edit", "prefix", "suffix", "middle", "grow", "shrink", "empty", "deleted", "fromempty"}
